@@ -286,6 +286,11 @@ def with_g1(scs, seed, tier, quick_limit, thorough_limit=40000):
     g, info = g1.transition_scenarios(seed, limit=quick_limit if tier == "quick" else thorough_limit, scope=1)
     w = g1.small_alphabet_walks(seed, 150 if tier == "quick" else 3000)
     info["small_alphabet_walks"] = len(w)
+    if tier == "thorough":
+        # the larger universe (15 694 mechanism states, 860 k transitions): a sample of its transition cover
+        g2, info2 = g1.transition_scenarios(seed + 1, limit=30000, scope=2)
+        info["scope2"] = info2
+        g = g + g2
     return scs + g + w, {"g1_transition_cover": info}
 
 
